@@ -7,7 +7,8 @@ open Inj Inj.X86
 /-- One step of a slightly wider instruction set than the model's, used only to *judge* stub
     bytes the implementation emitted (never in a proof): the model's five instructions, plus
     `mov r8, imm8` (B0+r, r < 4), `mov r32, imm32` (B8+r, zero-extending), `xor eax, eax`
-    (31 C0 / 33 C0), `vzeroupper` and `nop`.  Anything else is undecodable. -/
+    (31 C0 / 33 C0), `vzeroupper`, `nop`, and `mov r64, imm64` / `jmp r64` through any register
+    (so that a branch through another scratch register is judged by what it clobbers, not as undecodable).  Anything else is undecodable. -/
 def stepWide (m : Nat → Nat) (c : Cpu) : Option Cpu :=
   match step m c with
   | some c' => some c'
@@ -27,7 +28,20 @@ def stepWide (m : Nat → Nat) (c : Cpu) : Option Cpu :=
       -- vzeroupper: clears the upper halves of the vector registers (not tracked here)
       some { c with rip := c.rip + 3 }
     else if b0 == 0x90 then some { c with rip := c.rip + 1 }
+    else if (b0 == 0x48 || b0 == 0x49) && 0xB8 ≤ b1 && b1 < 0xC0 then
+      -- REX.W (+B) B8+r io : mov r64, imm64 for any of the sixteen registers
+      let r := (b1 - 0xB8) + (if b0 == 0x49 then 8 else 0)
+      some { c with rip := c.rip + 10, gpr := setReg c.gpr r (rd64 m (c.rip + 2)) }
+    else if b0 == 0xFF && 0xE0 ≤ b1 && b1 < 0xE8 then
+      some { c with rip := c.gpr (b1 - 0xE0) }
+    else if b0 == 0x41 && b1 == 0xFF && 0xE0 ≤ m (c.rip + 2) && m (c.rip + 2) < 0xE8 then
+      some { c with rip := c.gpr (m (c.rip + 2) - 0xE0 + 8) }
     else none
+
+/-- is the instruction at `a` a jump of the wide set (it ends a followed sequence wherever it lands)? -/
+def isJumpWide (m : Nat → Nat) (a : Nat) : Bool :=
+  m a == 0xE9 || (m a == 0xFF && 0xE0 ≤ m (a + 1) && m (a + 1) < 0xE8) ||
+  (m a == 0x41 && m (a + 1) == 0xFF && 0xE0 ≤ m (a + 2) && m (a + 2) < 0xE8)
 
 def runWide (m : Nat → Nat) : Nat → Cpu → Option Cpu
   | 0, c => some c
@@ -42,10 +56,7 @@ def followWideCpu (a : Nat) (bs : List Nat) (rax : Nat) : Option Cpu := Id.run d
   let m := memOfBytes a bs
   let mut c : Cpu := { rip := a, gpr := setReg (fun _ => 0) 0 rax, xmm := fun _ => 0, flags := 0 }
   for _ in [0:4] do
-    let isJump := match decode m c.rip with
-      | some (Instr.jmpRel32 _) => true
-      | some Instr.jmpRax => true
-      | _ => false
+    let isJump := isJumpWide m c.rip
     match stepWide m c with
     | none => return none
     | some c' =>
@@ -63,10 +74,7 @@ def followWide (a : Nat) (bs : List Nat) (rax : Nat) : Option (Nat × Nat) := Id
   let m := memOfBytes a bs
   let mut c : Cpu := { rip := a, gpr := setReg (fun _ => 0) 0 rax, xmm := fun _ => 0, flags := 0 }
   for _ in [0:4] do
-    let isJump := match decode m c.rip with
-      | some (Instr.jmpRel32 _) => true
-      | some Instr.jmpRax => true
-      | _ => false
+    let isJump := isJumpWide m c.rip
     match stepWide m c with
     | none => return none
     | some c' =>
